@@ -25,9 +25,9 @@ struct H : mp::SOLHandler {
   template <class VR> void OnDualSolution(VR &rd) { while (rd.Size()) y.push_back(rd.ReadNext()); }
   template <class VR> void OnPrimalSolution(VR &rd) { while (rd.Size()) x.push_back(rd.ReadNext()); }
   void OnObjno(int o) { objno = o; } void OnSolveCode(int c) { code = c; }
-  std::map<std::string, std::map<int, double> > sufs;
-  template <class SR> void OnIntSuffix(SR &sr) { auto &m = sufs["i" + std::to_string(sr.SufInfo().Kind() & 3) + sr.SufInfo().Name()]; while (sr.Size()) { auto v = sr.ReadNext(); if (sr.ReadResult() == NLW2_SOLRead_OK) m[v.first] = v.second; } }
-  template <class SR> void OnDblSuffix(SR &sr) { auto &m = sufs["d" + std::to_string(sr.SufInfo().Kind() & 3) + sr.SufInfo().Name()]; while (sr.Size()) { auto v = sr.ReadNext(); if (sr.ReadResult() == NLW2_SOLRead_OK) m[v.first] = v.second; } }
+  std::map<std::string, std::map<int, double> > sufs; std::map<std::string, std::string> tables;
+  template <class SR> void OnIntSuffix(SR &sr) { tables[sr.SufInfo().Name()] = sr.SufInfo().Table(); auto &m = sufs["i" + std::to_string(sr.SufInfo().Kind() & 3) + sr.SufInfo().Name()]; while (sr.Size()) { auto v = sr.ReadNext(); if (sr.ReadResult() == NLW2_SOLRead_OK) m[v.first] = v.second; } }
+  template <class SR> void OnDblSuffix(SR &sr) { tables[sr.SufInfo().Name()] = sr.SufInfo().Table(); auto &m = sufs["d" + std::to_string(sr.SufInfo().Kind() & 3) + sr.SufInfo().Name()]; while (sr.Size()) { auto v = sr.ReadNext(); if (sr.ReadResult() == NLW2_SOLRead_OK) m[v.first] = v.second; } }
 };
 int main(int argc, char **argv) {
   bool skip_known = argc > 1 && !strcmp(argv[1], "--skip-known");
@@ -73,6 +73,23 @@ int main(int argc, char **argv) {
     else if (h.x != x || h.y != y) why = "vectors read back differently";
     else if (!h.sufs.count(key) || h.sufs[key] != want) why = "suffix values read back differently";
     if (!why.empty()) { printf("VIOLATED: %s suffix '%s' of kind %d: %s\n", real ? "real" : "int", names[ni], kind, why.c_str()); bad = 1; }
+  }
+  // value tables: one to three lines, with and without a trailing newline, empty middle line; a suffix without table follows
+  static const char *tabs[] = {"x", "1 low\n2 upp", "a\n\nb", "one line\n", "0\tnon\tnot in the iis\n1\tlow\tat lower bound\n", "\nb"};
+  for (int ti = 0; ti < 6 && !bad && !only_vbtol; ++ti) {
+    mp::Problem p; p.AddVar(0, 1); p.AddVar(0, 1); p.AddVar(0, 1); p.AddCon(0, 1); p.AddCon(0, 1); p.AddObj(mp::obj::MIN);
+    auto si = p.suffixes(mp::suf::VAR).Add<int>("iis", mp::suf::VAR | mp::suf::OUTPUT, 3, tabs[ti]); si.set_value(0, 3); si.set_value(2, -1);
+    auto sd = p.suffixes(mp::suf::CON).Add<double>("slack", mp::suf::CON | mp::suf::OUTPUT | mp::suf::FLOAT, 2, tabs[ti]); sd.set_value(1, 2.5);
+    auto sl = p.suffixes(mp::suf::OBJ).Add<int>("last", mp::suf::OBJ | mp::suf::OUTPUT, 1); sl.set_value(0, 9);
+    std::vector<long> opts{1, 0, 0}; std::vector<double> x{1.5, 0, -2}, y{0.25, 4};
+    mp::SolutionAdapter<mp::Problem> sa(0, &p, "hello", mp::ArrayRef<long>(opts.data(), opts.size()), x, y, 1);
+    mp::WriteSolFile(path, sa);
+    H h; h.nv = 3; h.nc = 2; mp::NLUtils u;
+    auto r = mp::ReadSOLFile(path, h, u); ++n; std::string why;
+    if (r.first != NLW2_SOLRead_OK) why = "the reader rejects the written file: " + r.second;
+    else if (h.tables["iis"] != tabs[ti] || h.tables["slack"] != tabs[ti]) why = "the value table is read back differently";
+    else if (h.sufs["i0iis"] != std::map<int, double>{{0, 3}, {2, -1}} || h.sufs["d1slack"] != std::map<int, double>{{1, 2.5}} || h.sufs["i2last"] != std::map<int, double>{{0, 9}}) why = "suffix values read back differently";
+    if (!why.empty()) { printf("VIOLATED: suffixes with value table number %d: %s\n", ti, why.c_str()); bad = 1; }
   }
   remove(path);
   if (!bad) printf("ok: %d solutions written and read back\n", n);
